@@ -731,9 +731,55 @@ def g_bool(r, depth, in_pred):
     return T("bool", pa + " " + op + " " + pb, a, b)
 
 
+def g_inner_positional(r):
+    """a nested node-set expression with its own positional predicate whose context node list tends to contain (and
+    often end with) the outer context node -- it runs through push/popContextNodeList and the position() cache"""
+    base = r.choice(["../*", "../node()", "../*", "preceding-sibling::* | .", ". | following-sibling::*", "ancestor-or-self::*",
+                     "self::node()", "../*/self::*", "//*", "../..//*", "preceding-sibling::*/following-sibling::*",
+                     "following-sibling::*/preceding-sibling::*", "$na", "../@*/.."])
+    pp = r.choice(["position() > 0", "position() >= 1", "position() <= last()", "position() != 0", "position() = last()",
+                   "position() < 3", "position() > 1", "last() > 0 and position() > 0", "position() mod 2 = 1", "position() = 1"])
+    w = r.below(5)
+    if w == 0:
+        return "(%s)[%s]" % (base, pp)
+    if w == 1 and "|" not in base:
+        return "%s[%s][%s]" % (base, pp, r.choice(["position() >= 1", "position() = last()", "1", "last()"]))
+    if "|" in base:
+        return "(%s)[%s]" % (base, pp)
+    return "%s[%s]" % (base, pp)
+
+
+def g_nested_pred(r):
+    inner = g_inner_positional(r)
+    outer = r.choice(["position() = 1", "position() = 2", "position() = 3", "position() = last()", "position() > 1",
+                      "position() < last()", "last() = 2", "last() > 2", "position() = last() - 1", "position() mod 2 = 0"])
+    k = r.below(10)
+    if k == 0:
+        return "%s and %s" % (inner, outer)
+    if k == 1:
+        return "%s and %s" % (outer, inner)
+    if k == 2:
+        return "not(%s) or %s" % (inner, outer)
+    if k == 3:
+        return "count(%s) = position()" % inner
+    if k == 4:
+        return "position() = count(%s)" % inner
+    if k == 5:
+        return "count(%s) + position() > last()" % inner
+    if k == 6:
+        return "count(%s) >= last() and %s" % (inner, outer)
+    if k == 7:
+        return "position() + count(%s) - count(%s)" % (inner, inner)
+    if k == 8:
+        return "(%s = %s) or %s" % (inner, g_inner_positional(r), outer)
+    return "string-length(name(%s)) > 0 and %s" % (inner, outer)
+
+
 def g_pred(r, depth):
     d = max(depth, 0)
-    k = r.weighted([("lit", 5), ("poscmp", 6), ("last", 3), ("num", 3), ("bool", 6), ("ns", 3)])
+    k = r.weighted([("lit", 5), ("poscmp", 6), ("last", 3), ("num", 3), ("bool", 6), ("ns", 3), ("nested", 5)])
+    if k == "nested":
+        return T("pred", g_nested_pred(r).replace("{", "{{").replace("}", "}}"))
     if k == "lit":
         return T("pred", r.choice(["1", "2", "3", "1", "2", "0", "1.5", "4", "10"]))
     if k == "poscmp":
@@ -834,3 +880,35 @@ def gen_doc2(r, maxnodes=14):
 
     xml = elem(0, 0)
     return xml, table
+
+
+# ---------------------------------------------------------------------------------------------
+# expressions aimed at the position() cache: every invalidation site (push / pop of a context node list, between two
+# predicates of one step) must change some value when dropped
+
+POS_OUTER_PATHS = ["//*", "/*/*", "//*/*", "descendant::*", "following::*", "//node()", "ancestor-or-self::*", "(//*)",
+                   "//*/following-sibling::*", "//*/preceding-sibling::*", "*", "(//* | //@*)", "//*/..", "preceding::*"]
+POS_SENSITIVE = ["position() = 1", "position() = 2", "position() = 3", "position() = last()", "position() < 3", "position() > 1",
+                 "position() mod 2 = 1", "position() = last() - 1", "position() != 2", "position() >= 2", "last() - position() = 1"]
+POS_INNER_BASES = ["../*", "../node()", "(. | following-sibling::*)", "(preceding-sibling::* | .)", "ancestor-or-self::*",
+                   "ancestor-or-self::node()", "//*", "../../*/*", "(../* | ../@*)", "$na", "self::node()", "(//* )",
+                   "preceding-sibling::*/following-sibling::*", "following-sibling::*/preceding-sibling::*"]
+
+
+def g_positional_expr(r):
+    outer = r.choice(POS_OUTER_PATHS)
+    fam = r.below(6)
+    sp = lambda: r.choice(POS_SENSITIVE)
+    inner = lambda: "%s[%s]" % (r.choice(POS_INNER_BASES), sp())
+    if fam == 0:      # between predicates
+        return "%s[%s][%s]" % (outer, sp(), sp()) + ("[%s]" % sp() if r.chance(1, 3) else "")
+    if fam == 1:      # nested first (pop), outer position afterwards
+        return "%s[count(%s) %s %s and %s]" % (outer, inner(), r.choice(["=", ">", "<", "!="]), r.choice(["0", "1", "2"]), sp())
+    if fam == 2:      # outer position first, nested afterwards (push)
+        return "%s[%s and count(%s) %s %s]" % (outer, r.choice(["position() >= 1", "position() > 0", sp()]), inner(),
+                                               r.choice(["=", ">", "<", "!="]), r.choice(["0", "1", "2"]))
+    if fam == 3:      # arithmetic mix in one numeric predicate
+        return "%s[position() + count(%s) - count(%s)]" % (outer, inner(), inner())
+    if fam == 4:      # comparison mixing inner and outer position()/last()
+        return "%s[(position() %s count(%s)) or (last() = count(%s) and %s)]" % (outer, r.choice(["=", "<", ">"]), inner(), inner(), sp())
+    return "count(%s[%s]/%s) + count(%s)" % (outer, sp(), inner(), "%s[%s and %s]" % (outer, inner(), sp()))
